@@ -539,6 +539,9 @@ func c04WinCase(tag string, idx1, idx2 [][]string) Case {
 
 func genC04(ctx *Ctx) []Case {
 	var cases []Case
+	// window cases run in the harness goroutine (no process death on a panic) and shrink to a few
+	// keys: they are emitted right after the fixed witnesses, before the table cases
+	var wcases []Case
 	count := func(t1, t2 *c04Table) {
 		nb := func(t *c04Table) int { return (len(t.Rows) + 254) / 255 }
 		ctx.Count(fmt.Sprintf("blocks_%dx%d", nb(t1), nb(t2)))
@@ -697,6 +700,63 @@ func genC04(ctx *Ctx) []Case {
 	add("composite", false, odd2, odd)
 	add("composite", false, odd, odd)
 
+	// --- composite keys built to break "join the components, then compare": first components that
+	//     are prefixes of one another followed by bytes below / at / above a separator (',' 0x2c,
+	//     '\x00', ' ', '!', '-', high bytes), groups sharing the first component larger than a
+	//     block or straddling block boundaries
+	fam := []string{"", " ", "a", "a ", "a!", "a,", "a-", "a\x00", "ab", "a\xff", "a\"", "b,", "\x80"}
+	sort.Strings(fam)
+	prefixTable := func(firsts []string, lo, hi, step, variant int, three bool) *c04Table {
+		t := &c04Table{PK: []string{"a", "b"}, Cols: []string{"a", "b", "v"}}
+		if three {
+			t = &c04Table{PK: []string{"a", "b", "c"}, Cols: []string{"a", "v", "b", "c"}}
+		}
+		n := 0
+		for _, f := range firsts {
+			if three {
+				for _, g := range firsts {
+					for i := lo; i < hi; i += step {
+						n++
+						t.Rows = append(t.Rows, c04Row{Key: []string{f, g, fmt.Sprintf("%03d", i)}, RowID: c04RowID(n, variant)})
+					}
+				}
+				continue
+			}
+			for i := lo; i < hi; i += step {
+				n++
+				// the second component starts with a digit or with a separator-like byte
+				sec := fmt.Sprintf("%04d", i)
+				if i%7 == 3 {
+					sec = fmt.Sprintf(" %03d", i)
+				}
+				t.Rows = append(t.Rows, c04Row{Key: []string{f, sec}, RowID: c04RowID(n, variant)})
+			}
+		}
+		c04SortRows(t)
+		return t
+	}
+	grp := 60 // rows per first-component group: 255 and 510 fall inside groups
+	if ctx.Thorough() {
+		grp = 100
+	}
+	pfx := []*c04Table{
+		prefixTable(fam, 0, grp, 1, 0, false),                            // 13 groups: block boundaries fall inside groups
+		prefixTable(fam, 20, 20+grp, 2, 3, false),                        // overlapping second components, other block cuts
+		prefixTable(fam[2:9], 0, 300, 1, 0, false),                       // groups larger than a block
+		prefixTable([]string{"a", "a ", "a,", "ab"}, 0, 90, 1, 4, false), // nested in the above
+		prefixTable(fam[1:8], 0, 12, 1, 0, true),                         // 3 columns, 49 groups x 12
+		prefixTable(fam[2:9], 3, 15, 1, 5, true),
+		{PK: []string{"a", "b"}, Cols: []string{"a", "b", "v"}},
+	}
+	for _, t1 := range pfx {
+		for _, t2 := range pfx {
+			if len(t1.PK) != len(t2.PK) {
+				continue
+			}
+			add("prefix", false, t1, t2)
+		}
+	}
+
 	// --- keyless tables with equal columns (the key is the whole row), and with different columns
 	keyless := func(ints []int, cols []string) *c04Table {
 		t := &c04Table{Cols: cols}
@@ -809,9 +869,9 @@ func genC04(ctx *Ctx) []Case {
 	}
 
 	// --- the consumers of the interactive diff: RowListReader / RowChangeReader / TableReader
-	for _, tag := range []string{"edges", "keyless", "columns", "composite", "blocks", "rand"} {
+	for _, tag := range []string{"edges", "keyless", "columns", "composite", "blocks", "rand", "prefix"} {
 		for i, pr := range byTag[tag] {
-			if (tag == "blocks" || tag == "composite") && i%3 != 0 && !ctx.Thorough() {
+			if !ctx.Thorough() && ((tag == "blocks" || tag == "composite" || tag == "prefix") && i%5 != 0 || tag == "edges" && i%2 != 0) {
 				continue
 			}
 			addK("readers", 3, i%2, pr[0], pr[1])
@@ -850,6 +910,7 @@ func genC04(ctx *Ctx) []Case {
 			{0, big[10], big[11]},
 			{0, big[3], empty}, {1, empty, big[3]},
 			{0, big[8], otherPK(big[7])},
+			{0, pfx[0], pfx[1]}, {1, pfx[3], pfx[2]}, {2, pfx[4], pfx[5]},
 		}
 		if ctx.Thorough() {
 			for i, pr := range byTag["edges"] {
@@ -865,6 +926,12 @@ func genC04(ctx *Ctx) []Case {
 						t1, t2 *c04Table
 					}{i % 3, pr[0], pr[1]})
 				}
+			}
+			for i, pr := range byTag["prefix"] {
+				cli = append(cli, struct {
+					mode   int
+					t1, t2 *c04Table
+				}{i % 3, pr[0], pr[1]})
 			}
 			for i, pr := range byTag["composite"] {
 				if i%4 == 0 {
@@ -900,7 +967,71 @@ func genC04(ctx *Ctx) []Case {
 			continue
 		}
 		for _, b := range vecs {
-			cases = append(cases, c04WinCase("windows-exh", a, b))
+			wcases = append(wcases, c04WinCase("windows-exh", a, b))
+			ctx.Count("window_cases")
+		}
+	}
+	// exhaustive over composite first keys whose order differs from the order of the joined
+	// strings: all pairs of strictly increasing vectors of length <= 3 over these keys
+	wkeys := [][]string{
+		{"", "a,"}, {"a", ""}, {"a", "z"}, {"a ", "a"}, {"a!", "a"}, {"a,", "a"}, {"a-", "a"},
+		{"a\x00", "z"}, {"ab", ""}, {"a\xff", ","},
+	}
+	sort.Slice(wkeys, func(i, j int) bool { return c04KeyLess(wkeys[i], wkeys[j]) })
+	if !ctx.Thorough() {
+		wkeys = wkeys[:8]
+	}
+	var wvecs [][][]string
+	for mask := 0; mask < 1<<len(wkeys); mask++ {
+		var v [][]string
+		for i, w := range wkeys {
+			if mask&(1<<i) != 0 {
+				v = append(v, w)
+			}
+		}
+		if len(v) <= 3 {
+			wvecs = append(wvecs, v)
+		}
+	}
+	for _, a := range wvecs {
+		if len(a) == 0 {
+			continue
+		}
+		for _, b := range wvecs {
+			wcases = append(wcases, c04WinCase("windows-prefix", a, b))
+			ctx.Count("window_cases")
+		}
+	}
+	// three columns, the prefix relation in the middle column: vectors of length <= 2 (thorough: 3)
+	mids := []string{"", " ", "a", "a ", "a,", "a-", "ab"}
+	var wkeys3 [][]string
+	for _, m := range mids {
+		wkeys3 = append(wkeys3, []string{"k", m, "1"})
+	}
+	wkeys3 = append(wkeys3, []string{"k ", "", "0"}, []string{"k,", "", "0"})
+	sort.Slice(wkeys3, func(i, j int) bool { return c04KeyLess(wkeys3[i], wkeys3[j]) })
+	maxLen3 := 2
+	if ctx.Thorough() {
+		maxLen3 = 3
+	}
+	var wvecs3 [][][]string
+	for mask := 0; mask < 1<<len(wkeys3); mask++ {
+		var v [][]string
+		for i, w := range wkeys3 {
+			if mask&(1<<i) != 0 {
+				v = append(v, w)
+			}
+		}
+		if len(v) <= maxLen3 {
+			wvecs3 = append(wvecs3, v)
+		}
+	}
+	for _, a := range wvecs3 {
+		if len(a) == 0 {
+			continue
+		}
+		for _, b := range wvecs3 {
+			wcases = append(wcases, c04WinCase("windows-prefix", a, b))
 			ctx.Count("window_cases")
 		}
 	}
@@ -914,9 +1045,13 @@ func genC04(ctx *Ctx) []Case {
 			n := ctx.Pick(7)
 			set := map[string][]string{}
 			for i := 0; i < n; i++ {
-				key := []string{words[ctx.Pick(3)], words[ctx.Pick(len(words))]}
+				pool := words
+				if k%2 == 1 {
+					pool = fam
+				}
+				key := []string{pool[ctx.Pick(4)], pool[ctx.Pick(len(pool))]}
 				if ctx.Pick(3) == 0 {
-					key = append(key, words[ctx.Pick(len(words))])
+					key = append(key, pool[ctx.Pick(len(pool))])
 				} else {
 					key = append(key, "")
 				}
@@ -933,8 +1068,10 @@ func genC04(ctx *Ctx) []Case {
 		if len(a) == 0 {
 			continue
 		}
-		cases = append(cases, c04WinCase("windows-rand", a, mk()))
+		wcases = append(wcases, c04WinCase("windows-rand", a, mk()))
 		ctx.Count("window_cases")
 	}
-	return cases
+	out := append([]Case{}, cases[:5]...)
+	out = append(out, wcases...)
+	return append(out, cases[5:]...)
 }
